@@ -68,6 +68,7 @@ func liveProfile() Profile {
 	p.MaxSteps = 25
 	p.Weights[KSlashHook] = 6
 	p.Weights[KSlash] = 6
+	p.Weights[GDrainAsset] = 5
 	return p
 }
 
